@@ -33,6 +33,7 @@ func (g *Gen) lvalue(e *Env, x Expr) []leafRef {
 			h := g.load(e.old0(), "BigInt._inner", a, SInt)
 			out = append(out, leafRef{"MathBig.val", h, SInt, nil})
 			out = append(out, leafRef{"MathBig.backing", h, SInt, nil})
+			out = append(out, leafRef{"MathBig.nz", h, SBool, nil})
 		}
 		return out
 	}
